@@ -49,16 +49,18 @@ def gen_args(rng, count, dist):
     raise ValueError(dist)
 
 
-def point(name, count, dist, env_kb, stack, opts=(), big=None, mode="-0", env_tiny=0, cmd_path_len=0, words_per_line=None, dup_env=None):
+def point(name, count, dist, env_kb, stack, opts=(), big=None, mode="-0", env_tiny=0, cmd_path_len=0, words_per_line=None, dup_env=None,
+          env_raw=0):
     """env_kb: environment padding made of few large variables; env_tiny: number of additional tiny variables (each costs the
     kernel a pointer as well as its bytes)."""
     return {"name": name, "count": count, "dist": dist, "env_kb": env_kb, "stack": stack, "opts": list(opts), "big": big, "mode": mode,
-            "env_tiny": env_tiny, "cmd_path_len": cmd_path_len, "words_per_line": words_per_line, "dup_env": dup_env}
+            "env_tiny": env_tiny, "cmd_path_len": cmd_path_len, "words_per_line": words_per_line, "dup_env": dup_env, "env_raw": env_raw}
 
 
 def grid(ctx, rng):
     q = [
         point("400k x 1 byte, 8MiB stack", 400000, "1", 1, 8 * MIB),
+        point("600k x 7 bytes, a 100000-byte environment variable that is not valid UTF-8", 600000, "7", 1, 8 * MIB, env_raw=100000),
         point("3500 x 999 bytes, environment with DUPVAR=<1000 bytes> 40 times", 3500, "999", 1, 8 * MIB, dup_env=(40, 1000)),
         point("300k x 2 bytes, 5000 words per line, -L 50", 300000, "2", 1, 8 * MIB, opts=["-L", "50"], mode="words", words_per_line=5000),
         point("one line of 400k one-byte words, -L 1", 400000, "1", 1, 8 * MIB, opts=["-L", "1"], mode="words", words_per_line=400000),
@@ -165,6 +167,10 @@ def run_point(job):
             i += 1
         for j in range(p.get("env_tiny", 0)):
             env["T%d" % j] = "1"
+        if p.get("env_raw"):
+            # a large variable whose value is not valid UTF-8 (carried as surrogate escapes): it costs the kernel its bytes all the same
+            env["VERIF_RAW"] = "\udce9" * p["env_raw"]
+            st.inc("points_with_a_non_utf8_environment_variable")
         # the environment alone must leave room to start xargs at all (otherwise nothing can be observed)
         kl = max(min(6 * MIB, (p["stack"] if p["stack"] >= 0 else 1 << 62) // 4), 128 * KIB)
         while sum(len(k_) + len(v_) + 2 + 8 for k_, v_ in env.items()) > kl // 2:
